@@ -178,6 +178,36 @@ def judge(rec, rnd, tmp, k):
             if supp:
                 key = 'supplemental-data-not-passed' if uses_supp else 'supplemental-parsed-as-transactions'
             rec.violation(key, f'explain {m["name"]!r} vs up: {diffs}', c2)
+    # ---- `explain "<statement text>"` for text that is IN the data (no merchant is named like it): the listing shows, per merchant, the category
+    #      `up` gave THOSE transactions (a merchant fed by several rules has transactions in several categories)
+    try:
+        exp_rows0 = B.expected(b)
+    except R.OutOfDomain:
+        exp_rows0 = None
+    if exp_rows0:
+        names = [m['name'].lower() for m in U['merchants']]
+        by_desc = {}
+        for e in exp_rows0:
+            by_desc.setdefault(e['desc'], set()).add(e['triple'])
+        cats_of = {}
+        for e in exp_rows0:
+            if e['triple']:
+                cats_of.setdefault(e['triple'][0], set()).add(e['triple'][1:])
+        cands = [d for d, ts in by_desc.items() if len(ts) == 1 and None not in ts and len(cats_of.get(next(iter(ts))[0], ())) >= 2
+                 and len(d) >= 6 and not any(d.lower() in n for n in names) and not any(d.lower() in d2.lower() for d2 in by_desc if d2 != d)]
+        if cands:
+            d = rnd.choice(sorted(cands))
+            trip = next(iter(by_desc[d]))
+            pq = B.tally(root, 'explain', d, cfg)
+            rec.count('cli_runs')
+            import re as _re
+            rows_ = _re.findall(r'^  (.+?)\s{2,}([^>\n]*?) > ?([^\n(]*?)\s+\((\d+) txns?', pq.stdout, _re.M)
+            if "Transactions matching" in pq.stdout and rows_:
+                rec.count('explain_statement_text_listing_checks')
+                mine = [(c_.strip(), s_.strip()) for m_, c_, s_, n_ in rows_ if m_.strip() == trip[0]]
+                if mine and (trip[1], trip[2]) not in mine:
+                    rec.violation('explain-statement-text-listing-differs', f'explain {d!r}: the listing shows {trip[0]!r} under {mine}; tally up put these transactions under '
+                                  f'{(trip[1], trip[2])} (the merchant has transactions in {sorted(cats_of[trip[0]])})', case)
     # ---- discover vs Unknown of up
     pd = B.tally(root, 'discover', cfg, '--format', 'json', '-n', '0')
     rec.count('cli_runs')
@@ -229,6 +259,20 @@ def judge(rec, rnd, tmp, k):
             rec.violation(key, f'discover lists {dict(unknown_d)} ; up leaves Unknown {dict(unknown_u)} (only in discover: {extra}; only in up: {miss})', case)
         else:
             judge_discover_totals(rec, D, exp_rows, case)
+            # the example transactions shown for a description are transactions OF that description
+            if exp_rows is not None:
+                amts = {}
+                for e in exp_rows:
+                    if e['triple'] is None:
+                        amts.setdefault(e['desc'], []).append(round(abs(e['raw_amount']), 2))
+                for x in D:
+                    ex = x.get('examples') or []
+                    rec.count('discover_example_checks')
+                    bad = [y for y in ex if round(abs(y.get('amount', 0)), 2) not in amts.get(x['raw_description'], [])]
+                    if bad or len(ex) > x['count']:
+                        rec.violation('discover-examples-are-not-of-the-description', f'unknown description {x["raw_description"]!r} (count {x["count"]}, amounts '
+                                      f'{amts.get(x["raw_description"])}): examples listed {[(y.get("date"), y.get("amount")) for y in ex]}', case)
+                        break
     shutil.rmtree(root, ignore_errors=True)
 
 
